@@ -6,18 +6,19 @@ PROP = {
     "run_file": "Run/C08Run.v",
     "obligation_files": ["Props/C08.v", "Lib/StreamProofs.v"],
     "trusted_base": [KERNEL, HARNESS, NOAX,
-                     "modelled, not verified: coq/Lib/Stream.v is hand-written after value/list.go (Map Accept Combine Number IIr Compact Skip Top First Single Size Present IndexWhere containsItem Reduce), value/operations.go (list + list), value/value.go (numbers) and iterator.go (MapAuto/FilterAuto sequential branch, Combine, IirMap, FirstN, Skip, Append, Generate, Reduce); the push-style producers are rendered as a pull machine with Skip steps, and tied to the implementation by comparing outcome and tick log event by event on every generated pipeline",
+                     "modelled, not verified: coq/Lib/Stream.v is hand-written after value/list.go (Map Accept Combine Number IIr Compact Skip Top First Single Size Present IndexWhere containsItem Reduce), value/list.go Cross and Merge, value/operations.go (list + list), value/value.go (numbers) and iterator.go (MapAuto/FilterAuto sequential branch, Combine, IirMap, FirstN, Skip, Append, Cross, Merge (sequential abstraction: no goroutine read-ahead), Generate, Reduce); the push-style producers are rendered as a pull machine with Skip steps, and tied to the implementation by comparing outcome and tick log event by event on every generated pipeline",
                      "the tick log is produced by harness host functions tick/tick2/tick2b registered with IsPure=false; they also record the goroutine id to detect a switch to parallel mode"],
     "assumptions": ["stages run in sequential mode (MapAuto/FilterAuto switch to worker goroutines only when a closure needs more than 200 us per element; the harness detects a switch by goroutine id, retries, and otherwise applies only the demand bound)",
                     "elements are ints; closures are total functions of their arguments apart from the logged tick (no other side effects)",
                     "every consumer stops at the first error it receives (true for all consumers in value/list.go); what a stage would do if a consumer continued after an error is not modelled"],
     "residue": "promptness (the call returns within 2 s on numbers(10^11)) is observed on every case, not proved; the parallel branches of MapAuto/FilterAuto (read-ahead = worker count) are outside the sequential model (C06 covers schedules): a case observed in parallel mode is repeated on one CPU (taskset -c 0, where MapAuto/FilterAuto are plain Map/Filter); multiUse runs its consumers on goroutines: only its demand (tick counts) and outcome are judged, by the Go oracle, on one CPU, and its read-ahead is modelled by `drain` (recorded finding: unbounded behind accept/compact)",
-    "correspondence_only": ["multiUse: outcome and tick counts against the eager Go oracle (no event-by-event comparison: goroutine interleaving)",
+    "correspondence_only": ["merge: outcome and tick counts against the eager Go oracle with one element of read-ahead per operand (iterator.ToChan goroutines; no event-by-event comparison), each merge case in a process of its own",
+                            "multiUse: outcome and tick counts against the eager Go oracle (no event-by-event comparison: goroutine interleaving)",
                             "model = specification (run agrees with the eager prefix semantics spec_need: same outcome, every closure at most need+1 calls) is checked on every generated case through c08_im and c08_is, not proved in general"],
 }
 
 MANIFEST = {
-    "text": "Theorems (Coq, all pipelines of map/accept/combine/number/iir/compact/skip/top/+ over numbers(n) and list sources, all closures as arbitrary total functions, all consumers first/single/size/present/indexWhere/~/reduce, no bound on lengths): building emits no event; one step of a pipeline asks the source for at most one element and runs each stage closure at most once, so a consumer that stops after N steps has run every closure at most N times; the outcome and the log of such a run are unchanged by any change of closures on arguments that were not logged and of numbers(n) beyond N (late failing elements and the source length are invisible); fuel N suffices whatever the source length; a map closure directly under top(n) runs at most n times (no read-ahead, after the repair of List.Top); numbers(n).map(f).present(p) decided at position k makes exactly k+1 steps; the read-ahead of a one-consumer multiUse pass is refuted as a bounded quantity (witness by vm_compute) and proved to cost one step when no element is dropped on the way. The model is compared event by event with the real library on generated pipelines over numbers(10^11) with an impure tick in every closure, decisive position 0..40, failing element at offsets -3..+3; an eager prefix semantics (specification side) and an independent Go oracle check outcome and the demand bound need+1.",
+    "text": "Theorems (Coq, all pipelines of map/accept/combine/number/iir/compact/skip/top/+/cross/merge (the other operand of +, cross and merge is a pipeline of its own) over numbers(n) and list sources, all closures as arbitrary total functions, all consumers first/single/size/present/indexWhere/~/reduce, no bound on lengths): building emits no event; one step of a pipeline asks the source for at most one element and runs each stage closure at most once, so a consumer that stops after N steps has run every closure at most N times; the outcome and the log of such a run are unchanged by any change of closures on arguments that were not logged and of numbers(n) beyond N (late failing elements and the source length are invisible); fuel N suffices whatever the source length; a map closure directly under top(n) runs at most n times (no read-ahead, after the repair of List.Top); numbers(n).map(f).present(p) decided at position k makes exactly k+1 steps; in p1.cross(p2.map(f),g) the closure f of the second list runs at most once more than g (column j is evaluated only when a row reaches it); in a.map(fa).merge(b.map(fb),<).map(fm) each operand is at most one element ahead of what was delivered; the read-ahead of a one-consumer multiUse pass is refuted as a bounded quantity (witness by vm_compute) and proved to cost one step when no element is dropped on the way. The model is compared event by event with the real library on generated pipelines over numbers(10^11) with an impure tick in every closure, decisive position 0..40, failing element at offsets -3..+3; an eager prefix semantics (specification side) and an independent Go oracle check outcome and the demand bound need+1.",
     "design_ref": "DESIGN.md section 6 C08",
     "note": "Trusted: Coq kernel + VM, the Go harness; the stream model is hand-written and tied by correspondence only; sequential mode only; wall-clock promptness is observed.",
     "technique": "Coq proof over an executable pull-stream model + vm_compute correspondence run with tick logs",
